@@ -206,6 +206,9 @@ func (n *Node) References(ctx context.Context, refType uint32, dir ua.BrowseDire
 }
 
 func (n *Node) browseNext(ctx context.Context, results []*ua.BrowseResult) ([]*ua.ReferenceDescription, error) {
+	if len(results) == 0 {
+		return nil, ua.StatusBadUnexpectedError
+	}
 	refs := results[0].References
 	for len(results[0].ContinuationPoint) > 0 {
 		req := &ua.BrowseNextRequest{
@@ -217,6 +220,9 @@ func (n *Node) browseNext(ctx context.Context, results []*ua.BrowseResult) ([]*u
 			return nil, err
 		}
 		results = resp.Results
+		if len(results) == 0 {
+			return nil, ua.StatusBadUnexpectedError
+		}
 		refs = append(refs, results[0].References...)
 	}
 	return refs, nil
